@@ -173,7 +173,7 @@ def singlelane_conformance(ck, n_scen, reps, thorough, salt=71):
         for line in ((False, True) if (thorough and j < 4) else ((True,) if j in (0, 3) else (False,))):
             k += 1
             items.append({'id': k, 'sc': {'cap': cap, 'ops': [wo, ro], 'tmo': [0.01, 0.02], 'line': line}, 'strategy': 'dfs',
-                          'bound': 3 if thorough else 2, 'max_runs': 6000 if thorough else 3000})
+                          'bound': 3 if thorough else 2, 'max_runs': (2000 if line else 6000) if thorough else 3000})
     out = ck.run_binder('singlelane', items, timeout=2400)
     ck.evaluations += int(out.get('n_exec', 0))
     for h in out.get('crashes', []):
